@@ -128,7 +128,7 @@ func TestC14Child(t *testing.T) {
 			ws, err = openStore(job.Base)
 			if err != nil {
 				ws = nil
-			} else if inj != nil && !installAPIFaults(ws, inj) {
+			} else if inj != nil && !installAPIFaults(ws, inj, walDirOf(job.Base)) {
 				say("X %d api-fault-wrapper-not-installed", i)
 				os.Exit(4)
 			}
